@@ -771,9 +771,12 @@ def run(ctx):
         ctx.broken("translator", "tools/translate/multinet.py", repr(e))
     proved = ctx.prove("C20")
     try:                                   # after_run_is_standalone: instance of the C12 history model
+        import vlib as _vlib
         from props import c12 as _c12
         for name, fn in getattr(_c12, "GEN", []):
-            ctx.gen(name, fn())
+            # C12's generator takes ~25 s: in the quick tier its Gen file is used as C12's own check left it
+            if not ctx.quick or not os.path.exists(os.path.join(_vlib.COQ, "Gen", name + ".v")):
+                ctx.gen(name, fn())
     except Exception as e:
         ctx.broken("translator", "C12 generators (needed by C20/Standalone.v)", repr(e))
     ctx.prove("C20", props="Standalone")
@@ -788,7 +791,7 @@ def run(ctx):
     except Exception:
         import traceback
         ctx.broken("harness", "bookkeeping correspondence", traceback.format_exc()[-1200:])
-    for name, fn, n in (("run_control", monitor_multinets, 12 if ctx.quick else 300),
+    for name, fn, n in (("run_control", monitor_multinets, 9 if ctx.quick else 300),
                         ("timeseries", monitor_timeseries, 4 if ctx.quick else 30)):
         try:
             check_written(ctx, fn(ctx, n), name)
@@ -801,7 +804,7 @@ def run(ctx):
         import traceback
         ctx.broken("harness", "monitor init_any", traceback.format_exc()[-1200:])
     try:
-        monitor_divergence(ctx, 6 if ctx.quick else 60)
+        monitor_divergence(ctx, 5 if ctx.quick else 60)
     except Exception:
         import traceback
         ctx.broken("harness", "monitor divergence", traceback.format_exc()[-1200:])
